@@ -9,6 +9,8 @@ Lemma singleton_names_eq : singleton_names = ["None"; "True"; "False"].
 Proof. reflexivity. Qed.
 Lemma wildcard_name_eq : wildcard_name = "_".
 Proof. reflexivity. Qed.
+Lemma star_wildcard_name_eq : star_wildcard_name = "_".
+Proof. reflexivity. Qed.
 Lemma keyword_class_path_eq : keyword_class_path = ["hy"; "models"; "Keyword"].
 Proof. reflexivity. Qed.
 
@@ -203,12 +205,11 @@ Variable mangle : string -> string.
 
 Definition kwd_ok (k : string) : bool := kwd_attrs_mangled || String.eqb (mangle k) k.
 
-(* the patterns outside the three recorded constructs *)
+(* the only condition left: the attribute name of a class-pattern keyword is its mangled name
+   (true of every pattern when the regenerated compile_pattern mangles it) *)
 Fixpoint supported (h : hpat) : bool :=
   match h with
-  | HLit (LStr s) => negb (mem s singleton_names)
-  | HLit _ | HSym _ | HValue _ | HKeyword _ => true
-  | HStar n => negb (String.eqb n "_")
+  | HLit _ | HSym _ | HValue _ | HKeyword _ | HStar _ => true
   | HOr ps | HSeq ps | HMap _ ps _ => forallb supported ps
   | HClass _ ps kws kps => forallb kwd_ok kws && forallb supported ps && forallb supported kps
   | HAs p _ => supported p
@@ -231,22 +232,13 @@ Local Notation hm := (hmatch mangle value veval veq is_sing as_seq as_map of_lis
 Local Notation cp := (compile mangle).
 Local Notation meq := (meq value).
 
-Lemma compile_star_inv q n : cp q = PMatchStar n -> exists m, q = HStar m /\ n = Some (mangle m).
-Proof.
-  destruct q; cbn [compile]; try discriminate.
-  - destruct l; try discriminate. destruct (mem s singleton_names); discriminate.
-  - destruct (mem s singleton_names); [discriminate|]. destruct (String.eqb s wildcard_name); discriminate.
-  - intros H. inversion H. eauto.
-Qed.
-
 Definition is_hstar (q : hpat) : bool := match q with HStar _ => true | _ => false end.
 
 Lemma compile_not_star q : is_hstar q = false -> forall (A : Type) (f : option string -> A) (d : A),
   match cp q with PMatchStar n => f n | _ => d end = d.
 Proof.
   intros Hq A f d. destruct q; try discriminate; cbn [compile]; try reflexivity.
-  - destruct l; try reflexivity. destruct (mem s singleton_names); reflexivity.
-  - destruct (mem s singleton_names); [reflexivity|]. destruct (String.eqb s wildcard_name); reflexivity.
+  destruct (mem s singleton_names); [reflexivity|]. destruct (String.eqb s wildcard_name); reflexivity.
 Qed.
 
 Lemma IH_to_Forall2 ps :
@@ -268,8 +260,7 @@ Theorem pattern_correct_partial : forall h, supported h = true -> forall v, pm (
 Proof.
   induction h using hpat_ind'; intros S.
   - (* literal *)
-    destruct l; try (intros v; reflexivity). cbn [supported] in S. apply negb_true_iff in S.
-    intros v. cbn [compile]. rewrite S. reflexivity.
+    intros v. reflexivity.
   - (* symbol *)
     intros v. cbn [compile hmatch]. rewrite singleton_names_eq, wildcard_name_eq. unfold mem. cbn [existsb].
     unfold singleton_of.
@@ -285,8 +276,8 @@ Proof.
     apply Forall2_map_l. rewrite Forall_forall in *. intros q Hq.
     pose proof (proj1 (forallb_forall _ _) S q Hq) as Sq.
     destruct (is_hstar q) eqn:Eq.
-    + destruct q; try discriminate. cbn [compile sieq]. cbn [supported] in Sq. apply negb_true_iff in Sq.
-      rewrite Sq. reflexivity.
+    + destruct q; try discriminate. cbn [compile sieq]. rewrite star_wildcard_name_eq.
+      destruct (String.eqb name "_"); reflexivity.
     + rewrite (compile_not_star q Eq). destruct q; try discriminate; exact (H _ Hq Sq).
   - (* a star outside a sequence *)
     intros v. reflexivity.
@@ -401,7 +392,7 @@ Fixpoint hwf (in_seq : bool) (h : hpat) : bool :=
   match h with
   | HLit _ | HValue _ | HKeyword _ => true
   | HSym s => mem s singleton_names || String.eqb s wildcard_name || hname_ok s
-  | HStar n => in_seq && hname_ok n
+  | HStar n => in_seq && (String.eqb n star_wildcard_name || hname_ok n)
   | HOr ps => Nat.leb 2 (List.length ps) && forallb (hwf false) ps
   | HSeq ps => forallb (hwf true) ps
                && Nat.leb (List.length (filter (fun q => match q with HStar _ => true | _ => false end) ps)) 1
@@ -429,7 +420,7 @@ Qed.
 Theorem compile_valid : forall h b, supported mangle h = true -> hwf b h = true -> valid b (compile mangle h) = true.
 Proof.
   induction h using hpat_ind'; intros b S W.
-  - destruct l; try reflexivity. cbn [supported] in S. apply negb_true_iff in S. cbn [compile]. rewrite S. reflexivity.
+  - reflexivity.
   - cbn [compile]. cbn [hwf] in W. rewrite singleton_names_eq in *. unfold mem in *. cbn [existsb] in *.
     unfold singleton_of.
     destruct (String.eqb s "None") eqn:E1; [reflexivity|].
@@ -445,7 +436,8 @@ Proof.
     rewrite star_filter_compile, map_length, W2, andb_true_r. rewrite forallb_map. apply forallb_forall. intros x Hx.
     rewrite Forall_forall in H. apply H; [exact Hx | exact (proj1 (forallb_forall _ _) S x Hx)
                                          | exact (proj1 (forallb_forall _ _) W1 x Hx)].
-  - cbn [hwf] in W. cbn [compile valid name_ok]. exact W.
+  - cbn [hwf] in W. cbn [compile valid]. apply andb_true_iff in W. destruct W as [W1 W2]. rewrite W1. cbn [andb].
+    destruct (String.eqb n star_wildcard_name); [reflexivity|]. exact W2.
   - cbn [supported hwf] in *. apply andb_true_iff in W. destruct W as [W W3]. apply andb_true_iff in W. destruct W as [W1 W2].
     cbn [compile valid]. rewrite !map_length, W1. cbn [andb].
     assert (G : forallb (valid false) (map (compile mangle) ps) = true).
@@ -467,15 +459,42 @@ Qed.
 End Valid.
 
 (* ================================================================== *)
-(* the full statement and its refutations                              *)
+(* the full statement                                                  *)
 (* ================================================================== *)
-Definition pattern_correct_full : Prop :=
+Lemma kwd_attrs_mangled_true : kwd_attrs_mangled = true.
+Proof. reflexivity. Qed.
+
+Lemma supported_all mangle : forall h, supported mangle h = true.
+Proof.
+  assert (K : forall kws, forallb (kwd_ok mangle) kws = true).
+  { intros kws. apply forallb_forall. intros k _. unfold kwd_ok. rewrite kwd_attrs_mangled_true. reflexivity. }
+  assert (F : forall ps, Forall (fun p => supported mangle p = true) ps -> forallb (supported mangle) ps = true).
+  { intros ps H. apply forallb_forall. rewrite Forall_forall in H. exact H. }
+  induction h using hpat_ind'; cbn [supported]; try reflexivity; auto.
+  rewrite K, (F _ H), (F _ H0). reflexivity.
+Qed.
+
+Theorem pattern_correct :
   forall (mangle : string -> string) (value : Type) veval veq is_sing as_seq as_map of_list of_dict isinst margs getattr,
   forall h v,
     pmatch value veval veq is_sing as_seq as_map of_list of_dict isinst margs getattr (compile mangle h) v
     = hmatch mangle value veval veq is_sing as_seq as_map of_list of_dict isinst margs getattr h v.
+Proof. intros. apply pattern_correct_partial. apply supported_all. Qed.
 
-(* a toy value domain: unit-free enough to separate the outcomes *)
+Theorem match_correct_all :
+  forall (mangle : string -> string) (value : Type) veval veq is_sing as_seq as_map of_list of_dict isinst margs getattr
+         (geval : nat -> bindings value -> bool) (beval : nat -> bindings value -> value) cs ctr v,
+  exec_match value veval veq is_sing as_seq as_map of_list of_dict isinst margs getattr geval beval
+    (compile_match mangle cs ctr) v
+  = hy_match mangle value veval veq is_sing as_seq as_map of_list of_dict isinst margs getattr geval beval cs v.
+Proof.
+  intros. apply match_correct. apply Forall_forall. intros c _. apply supported_all.
+Qed.
+
+Theorem compile_valid_all : forall (mangle : string -> string) h b, hwf mangle b h = true -> valid b (compile mangle h) = true.
+Proof. intros. apply compile_valid; [apply supported_all | assumption]. Qed.
+
+(* a toy value domain for the examples: the three constructs that used to be miscompiled *)
 Inductive tval := TStr (s : string) | TList (l : list tval) | TObj (attrs : list (string * tval)).
 Definition t_veval (e : vexpr) : tval := match e with VEConst (LStr s) => TStr s | _ => TStr "?" end.
 Definition t_veq (a b : tval) : bool := match a, b with TStr x, TStr y => String.eqb x y | _, _ => false end.
@@ -489,35 +508,16 @@ Definition t_hm (mangle : string -> string) :=
          (fun v _ => match v with TObj _ => true | _ => false end) (fun _ => Some []) t_getattr.
 Definition t_mangle (s : string) : string := if String.eqb s "a-b" then "a_b" else s.
 
-(* "None" as a string literal: the reference matches the string, the emitted MatchSingleton('None') is rejected *)
-Theorem refuted_string_literal :
-  t_hm t_mangle (HLit (LStr "None")) (TStr "None") = MYes []
-  /\ t_pm (compile t_mangle (HLit (LStr "None"))) (TStr "None") = MErr
-  /\ valid false (compile t_mangle (HLit (LStr "None"))) = false.
-Proof. repeat split; vm_compute; reflexivity. Qed.
+Example example_string_literal :
+  t_pm (compile t_mangle (HLit (LStr "None"))) (TStr "None") = MYes []
+  /\ valid false (compile t_mangle (HLit (LStr "None"))) = true.
+Proof. split; vm_compute; reflexivity. Qed.
 
-(* [x #* _]: the reference ignores the rest, the emitted MatchStar(name='_') is rejected (and would bind "_") *)
-Theorem refuted_star_wildcard :
-  t_hm t_mangle (HSeq [HSym "x"; HStar "_"]) (TList [TStr "a"; TStr "b"]) = MYes [("x", TStr "a")]
-  /\ t_pm (compile t_mangle (HSeq [HSym "x"; HStar "_"])) (TList [TStr "a"; TStr "b"])
-     = MYes [("x", TStr "a"); ("_", TList [TStr "b"])]
-  /\ valid false (compile t_mangle (HSeq [HSym "x"; HStar "_"])) = false.
-Proof. repeat split; vm_compute; reflexivity. Qed.
+Example example_star_wildcard :
+  t_pm (compile t_mangle (HSeq [HSym "x"; HStar "_"])) (TList [TStr "a"; TStr "b"]) = MYes [("x", TStr "a")]
+  /\ valid false (compile t_mangle (HSeq [HSym "x"; HStar "_"])) = true.
+Proof. split; vm_compute; reflexivity. Qed.
 
-(* (C :a-b "v"): the reference reads attribute a_b, the emitted kwd_attrs reads a-b *)
-Theorem refuted_class_keyword : kwd_attrs_mangled = false ->
-  t_hm t_mangle (HClass ["C"] [] ["a-b"] [HLit (LStr "v")]) (TObj [("a_b", TStr "v")]) = MYes []
-  /\ t_pm (compile t_mangle (HClass ["C"] [] ["a-b"] [HLit (LStr "v")])) (TObj [("a_b", TStr "v")]) = MNo.
-Proof.
-  intros H. split; [vm_compute; reflexivity|].
-  unfold t_pm. cbn [compile map]. unfold kw_attr. rewrite H. vm_compute. reflexivity.
-Qed.
-
-Theorem pattern_correct_refuted : ~ pattern_correct_full.
-Proof.
-  intros H.
-  specialize (H t_mangle tval t_veval t_veq (fun _ _ => false) t_as_seq (fun _ => None) TList (fun _ => TList [])
-                (fun v _ => match v with TObj _ => true | _ => false end) (fun _ => Some []) t_getattr
-                (HLit (LStr "None")) (TStr "None")).
-  vm_compute in H. discriminate.
-Qed.
+Example example_class_keyword :
+  t_pm (compile t_mangle (HClass ["C"] [] ["a-b"] [HLit (LStr "v")])) (TObj [("a_b", TStr "v")]) = MYes [].
+Proof. vm_compute. reflexivity. Qed.
